@@ -387,6 +387,7 @@ type mixOpts struct {
 	withOps    float64
 	consumers  []string
 	burst      float64
+	twoClients float64
 	bigBurst   bool
 }
 
@@ -508,7 +509,21 @@ func genMix(prop string, seed uint64, run int, o mixOpts) *Scenario {
 	for k := range wt {
 		sc.Tasks = append(sc.Tasks, TaskScript{Name: fmt.Sprintf("world%d", k), Role: "world", Ops: wt[k]})
 	}
-	if len(cl) > 0 {
+	if len(cl) > 1 && g.chance(o.twoClients) {
+		// two API callers: overlapping Add/Remove of the same paths
+		var a, b []Op
+		for _, op := range cl {
+			if g.chance(0.5) {
+				a = append(a, op)
+			} else {
+				b = append(b, op)
+				if op.K == OpRemove && g.chance(0.5) {
+					a = append(a, Op{K: OpAdd, W: op.W, P: op.P, Abs: op.Abs})
+				}
+			}
+		}
+		sc.Tasks = append(sc.Tasks, TaskScript{Name: "client0", Role: "client", Ops: a}, TaskScript{Name: "client1", Role: "client", Ops: b})
+	} else if len(cl) > 0 {
 		sc.Tasks = append(sc.Tasks, TaskScript{Name: "client0", Role: "client", Ops: cl})
 	}
 	return sc
